@@ -65,7 +65,10 @@ class Estimandizer:
 
             baseline_col = f"{BASELINE_PREFIX}{pointer}"
 
-            if baseline_col not in data_df.columns:
+            # a derived estimand (a function of this module) is always recomputed: data that has been through here
+            # before (the same frame passed again, or the locally saved copy) already has the derived column, and
+            # `margin` also has to replace the weights that were just reset to turnout by the two party turnout
+            if baseline_col not in data_df.columns or callable(globals().get(estimand)):
                 data_df, __ = globals()[estimand](data_df, BASELINE_PREFIX)
 
             if not historical:
